@@ -13,7 +13,7 @@ Two parts, both on the real code:
 import itertools
 import numpy as np
 
-from pyvc.sym import And, Or, Not, Implies, Iff, Ite, deep_eq, Sym, has_sym
+from pyvc.sym import SCx, And, Or, Not, Implies, Iff, Ite, deep_eq, Sym, has_sym
 from spec.groups import MOD, ALL_SYMS, sym_class
 from contracts.c13 import BackendProxy
 from contracts.c02 import h_transpose, h_moveaxis, h_add_leg, h_remove_leg, h_consume, h_diag
@@ -70,7 +70,7 @@ def leg_cases(sym):
     return MASKS if MOD[sym] else MASKS[:1]
 
 
-def symbolic_tensor(V, stem, sym, legs, n=None, isdiag=False, trans=None, policy='fuse_contracted'):
+def symbolic_tensor(V, stem, sym, legs, n=None, isdiag=False, trans=None, policy='fuse_contracted', cplx=False):
     """ a real tensor with the given concrete legs whose block data are symbolic reals """
     import yastn
     import yastn.backend.backend_np as bnp
@@ -84,8 +84,11 @@ def symbolic_tensor(V, stem, sym, legs, n=None, isdiag=False, trans=None, policy
     if V.symbolic:
         data = np.empty(size, dtype=object)
         for i in range(size):
-            data[i] = V.real(f"{stem}{i}")
+            data[i] = SCx(V.real(f"{stem}{i}"), V.real(f"{stem}{i}i")) if cplx else V.real(f"{stem}{i}")
         a = a._replace(config=a.config._replace(backend=BackendProxy()), data=data)
+    elif cplx:
+        data = np.array([complex(float(V.real(f"{stem}{i}")), float(V.real(f"{stem}{i}i"))) for i in range(size)], dtype=np.complex128)
+        a = a._replace(data=data)
     else:
         data = np.array([float(V.real(f"{stem}{i}")) for i in range(size)], dtype=np.float64)
         a = a._replace(data=data)
@@ -277,6 +280,44 @@ def h_values_mask(V, sym, case, pattern):
     arrays_equal(V, 'apply_mask:lazy-operand:dense-equals-numpy-selection', dense(V, r, {0: lk, 1: l0.conj(), 2: l0}), A[:, sel, :].transpose(1, 2, 0))
 
 
+def h_values_complex(V, sym, case):
+    """
+    complex data (entries re + i*im with symbolic parts): the conjugation variants, the conj= flags of tensordot / vdot, trace, addition and
+    scalar multiples agree with NumPy on the dense operands -- real and imaginary parts as separate polynomial identities
+    """
+    import yastn
+    lc = leg_cases(sym)
+    mk_ = lc[case % len(lc)]
+    l0, l1, l2 = make_leg(sym, 1, mk_[0]), make_leg(sym, 1, mk_[1]), make_leg(sym, -1, mk_[2])
+    a = symbolic_tensor(V, 'a', sym, [l0, l1, l2], cplx=True)
+    b = symbolic_tensor(V, 'b', sym, [l0, l1, l2], cplx=True)
+    full = {0: l0, 1: l1, 2: l2}
+    cfull = {k: v.conj() for k, v in full.items()}
+    A, B = dense(V, a, full), dense(V, b, full)
+    cj = np.vectorize(lambda z: z.conjugate(), otypes=[object])
+    arrays_equal(V, 'conj:dense-is-the-complex-conjugate', dense(V, V.call(a.conj), cfull), cj(A))
+    for cf in ((0, 1), (1, 0)):
+        r = V.call(a.tensordot, b, axes=((0, 1), (0, 1)), conj=cf)
+        X, Y = (cj(A) if cf[0] else A), (cj(B) if cf[1] else B)
+        lr = {0: (l2.conj() if cf[0] else l2), 1: (l2.conj() if cf[1] else l2)}
+        arrays_equal(V, f'tensordot(conj={cf}):dense-equals-numpy', dense(V, r, lr), np.tensordot(X, Y, axes=((0, 1), (0, 1))))
+    v = V.call(a.vdot, b)
+    V.check_equal('vdot:conjugates-the-first-operand', [v], [(cj(A) * B).sum()])
+    v = V.call(a.vdot, V.call(b.conj), conj=(1, 1))
+    V.check_equal('vdot(conj=(1,1)):conjugates-both', [v], [(cj(A) * B).sum()])
+    at = V.call(a.transpose, (2, 0, 1))
+    v = V.call(at.vdot, V.call(b.transpose, (2, 0, 1)))
+    V.check_equal('vdot:lazy-operands', [v], [(cj(A) * B).sum()])
+    z = SCx(V.real('zr'), V.real('zi'))
+    r = V.call(V.call(a.__mul__, z).__add__, b)
+    arrays_equal(V, 'complex-scalar-multiple-plus-tensor:dense-equals-numpy', dense(V, r, full), np.vectorize(lambda p, q: z * p + q, otypes=[object])(A, B))
+    t = symbolic_tensor(V, 't', sym, [l0, l1, l0.conj()], cplx=True)
+    T = dense(V, t, {0: l0, 1: l1, 2: l0.conj()})
+    arrays_equal(V, 'trace:dense-equals-numpy', dense(V, V.call(t.trace, axes=(0, 2)), {0: l1}), np.trace(T, axis1=0, axis2=2))
+    nrm2 = V.call(a.vdot, a)
+    V.check_equal('norm^2-is-real-and-the-sum-of-squared-moduli', [nrm2], [sum((x.re * x.re + x.im * x.im) if isinstance(x, SCx) else x * x for x in A.ravel().tolist())])
+
+
 def h_values_unary(V, sym, case):
     import yastn
     lc = leg_cases(sym)
@@ -346,6 +387,7 @@ def units(tier):
             for policy in ('fuse_to_matrix', 'fuse_contracted', 'no_fusion'):
                 U.append(('h_values_binary', f"{sym},tensordot,{policy},case{case}", dict(sym=sym, op='tensordot', case=case, policy=policy)))
             U.append(('h_values_unary', f"{sym},case{case}", dict(sym=sym, case=case)))
+            U.append(('h_values_complex', f"{sym},case{case}", dict(sym=sym, case=case)))
             for policy in (('fuse_to_matrix', 'fuse_contracted', 'no_fusion') if th else ('fuse_contracted',)):
                 U.append(('h_values_network', f"{sym},{policy},case{case}", dict(sym=sym, case=case, policy=policy)))
             for pattern in (0b10110101, 0b01001110) + ((0b11111110, 0b00010000) if th else ()):
